@@ -161,7 +161,7 @@ def occurrence_types():
     return out
 
 
-POSITIONS = ['arg', 'field', 'array', 'xmlattr']
+POSITIONS = ['arg', 'field', 'array', 'xmlattr', 'inherited']
 
 
 def bounds(tier):
@@ -181,7 +181,7 @@ def shards(tier):
             else:
                 out.append({'kind': 'facet', 'i': i, 'fid': fid, 'pos': pos, 'tier': tier})
     for j, (fid, t, mn, mx) in enumerate(occurrence_types()):
-        for pos in ('seq-arg', 'seq'):
+        for pos in ('seq-arg', 'seq', 'seq-inherited'):
             out.append({'kind': 'occ', 'j': j, 'fid': fid, 'pos': pos, 'tier': tier})
     return out
 
@@ -328,7 +328,8 @@ def run_shard(shard):
                 slot = vs if n else Absent
             exp = n >= mn and (mx == 'unbounded' or n <= mx)
             cases.append(('count:%d' % n, vs, slot, exp))
-    upos = {'array': 'array', 'arg': 'arg', 'field': 'field', 'xmlattr': 'xmlattr', 'seq': 'field', 'seq-arg': 'arg'}[pos]
+    upos = {'array': 'array', 'arg': 'arg', 'field': 'field', 'xmlattr': 'xmlattr', 'seq': 'field', 'seq-arg': 'arg', 'inherited': 'inherited',
+            'seq-inherited': 'inherited'}[pos]
     program = universe.program_for(t, upos)
     if program is None:
         return res
